@@ -197,10 +197,12 @@ func runC18(r *mon.Run, replay string) {
 	}
 	timed("limits", func() { phaseLimits(r) })
 	timed("dropleak", func() { phaseDropLeak(r) })
+	timed("pinseq", func() { phasePinSeq(r) })
 	timed("stall", func() { phaseStall(r) })
 	timed("caps", func() { phaseCaps(r) })
 	timed("shutdown", func() { phaseShutdown(r) })
 	timed("syncstalls", func() { phaseSyncStalls(r) })
+	timed("syncclose", func() { phaseSyncClose(r) })
 	join := startDeadlockScenarios(r)
 	timed("rhp", func() { phaseRHP(r) })
 	timed("rhpstalls", func() { phaseRHPStalls(r) })
@@ -215,6 +217,15 @@ func runC18(r *mon.Run, replay string) {
 	r.Floor("limit.subnet_drop_bursts", 1)
 	r.Floor("limit.fresh_burst_reached_full_limit", 5)
 	r.Floor("dropleak.final_bursts_served_completely", 3)
+	r.Floor("pinseq.ops", 200)
+	r.Floor("pinseq.handlers_released_individually", 60)
+	r.Floor("pinseq.leave_with_others_running", 20)
+	r.Floor("pinseq.slot_reuse_after_release", 10)
+	r.Floor("pinseq.drops_at_cap", 10)
+	r.Floor("pinseq.backpressured_requests_admitted_after_release", 3)
+	r.Floor("syncclose.closed_with_batch_parked", 4)
+	r.Floor("syncclose.batch_parked_in.AddBlocks", 1)
+	r.Floor("syncclose.batch_parked_in.AddValidatedV2Blocks", 1)
 	r.Floor("caps.inbound_attempted", 20)
 	r.Floor("caps.outbound_candidates", 8)
 	r.Floor("shutdown.close_calls", 10)
@@ -290,6 +301,14 @@ func runReplay(r *mon.Run, path string) {
 			var c DropLeakCase
 			json.Unmarshal(h.Case, &c)
 			runDropLeakCase(r, c)
+		case "pinseq":
+			var c PinSeqCase
+			json.Unmarshal(h.Case, &c)
+			runPinSeqCase(r, c)
+		case "sync-close":
+			var c SyncCloseCase
+			json.Unmarshal(h.Case, &c)
+			runSyncCloseCase(r, c)
 		case "stall":
 			var c StallCase
 			json.Unmarshal(h.Case, &c)
